@@ -52,6 +52,8 @@ def direct_corr(env: Env, out: Outcome, n: int) -> None:
             out.count("direct:res:" + r)
         for c in set(info.get("cmds", [])):
             out.count("direct:cmd:" + c)
+        if "multi_collect" in info:
+            out.count("direct:multi_collect_same_buffer:" + info["multi_collect"])
         if info.get("out") != "crash":
             out.nontrivial(o[-1])
     try:
